@@ -371,7 +371,11 @@ pub fn make_vsock(state: VirtualSocketState, cfg: VsConfig) -> VsTest {
         user_tx_segments: Segments::new(SeqNr(OUR_SEQ)),
         user_tx,
         rtte,
-        this_poll: ThisPoll { now, tmp_buf: vec![0u8; (ss.max_ss() + UTP_HEADER) as usize], transport_pending: false, restart: false, unsegmented_data: 0 },
+        // `..zeroed()`: fields a later version of the crate adds to this scratch struct start out as zero
+        // instead of breaking the harness build (the zeroed base's own Vec is an empty, never-freed Vec).
+        #[allow(clippy::needless_update)]
+        this_poll: ThisPoll { now, tmp_buf: vec![0u8; (ss.max_ss() + UTP_HEADER) as usize], transport_pending: false, restart: false, unsegmented_data: 0,
+            ..unsafe { std::mem::MaybeUninit::<ThisPoll>::zeroed().assume_init() } },
         parent_span: None,
         drop_guard: DropGuardSendBeforeDeath::new(ControlRequest::Shutdown((remote, SeqNr(CONN_ID_SEND + 1))), &socket.control_requests),
         user_rx,
